@@ -778,6 +778,7 @@ int __wrap_epoll_wait(int epfd, struct epoll_event *ev, int maxev, int timeout) 
   if (n == 0 && timeout != 0 && K().hooks.block) {
     int node = e->node;
     K().hooks.block(node, [epfd]() { return epoll_collect(epfd, nullptr, 1 << 30) > 0; }, timeout);
+    if (K().hooks.epoll_eintr && K().hooks.epoll_eintr()) { errno = EINTR; return -1; }
     n = epoll_collect(epfd, ev, maxev);
   }
   return n;
